@@ -14,7 +14,9 @@ SHARD = 40
 RULE = ("1-3 unicode memos (unique texts, 1..120 bytes, multi-byte characters split across grams) each segmented by the "
         "real Memoer.rend with one of the four zero codes x b64/b2 heads, gram sizes from the minimum upwards (also "
         "requested sizes below the minimum), 3 signers; on 40% of the senders a configuration history (.curt / .code / "
-        ".size setters in random order, sizes at and around the minimum of each (curt, code) pair) precedes the send; all grams delivered to a real receiving Memoer as a permutation "
+        ".size setters in random order, sizes at and around the minimum of each (curt, code) pair) precedes the send; the "
+        "receiver has its own independent code/curt/size (often smaller than the grams it receives) which are also changed "
+        "between arrivals; all grams delivered to a real receiving Memoer as a permutation "
         "with duplicates, interleaved across memos, sometimes with a gram withheld; serviced after every datagram, "
         "only at the end, once-style, or stage by stage; non-trivial = some memo has >= 2 grams and the delivery is "
         "not the send order, or has a duplicate, or memos are interleaved")
@@ -85,6 +87,16 @@ def directed():
                 fc, _ = _final({"code": code, "curt": curt, "hist": hist})
                 out.append({"authic": fc in mc.SIGNED, "schedule": "inorder", "svc": "all",
                             "memos": [_memo("config history %d wörld € " % k * 4, code, curt, ms, sg, 1, k, hist)]})
+    # sender and receiver configured independently: the receiver's own gram size is smaller than the grams it receives,
+    # its header encoding and code differ, and they are changed while the grams arrive
+    for code, curt, size, rx in (("bAAA", False, 64, {"size": 40}), ("bAAC", False, 200, {"size": 170, "code": "bAAC"}),
+                                 ("bAAE", True, 60, {"size": 33, "curt": False, "code": "bAAG"}),
+                                 ("bAAG", True, 140, {"size": 124, "curt": True, "code": "bAAA"})):
+        k += 1
+        sg = 0 if code in mc.SIGNED else None
+        for rxsets in ([], [[0.4, ["size", 1]], [0.7, ["curt", not curt]]]):
+            out.append({"authic": sg is not None, "schedule": "zeroth-first-shuffle", "svc": "all", "seed": k, "rx": rx, "rxsets": rxsets,
+                        "memos": [_memo("receiver has its own size %d wörld € " % k * 3, code, curt, size, sg, 1, k)]})
     # two memos interleaved from different sources, one gram withheld from the second
     out.append({"authic": False, "memos": [_memo("first memo first memo", "bAAA", False, 38, None, 1, 50),
                                            _memo("second memo second memo", "bAAE", True, 40, None, 2, 51)],
@@ -149,8 +161,14 @@ def generate(rng, tier):
         sched = rng.choice(["inorder", "shuffle", "shuffle", "shuffle+dups", "shuffle+dups", "zeroth-first-shuffle",
                             "reverse", "withhold", "double"])
         authic = any_signed and all(_final(m)[0] in mc.SIGNED for m in memos) and rng.random() < 0.8
-        out.append({"authic": authic, "memos": memos, "schedule": sched, "seed": rng.randrange(1 << 30),
-                    "svc": rng.choice(["end", "end", "all", "all", "once", "split"])})
+        c = {"authic": authic, "memos": memos, "schedule": sched, "seed": rng.randrange(1 << 30),
+             "svc": rng.choice(["end", "end", "all", "all", "once", "split"])}
+        if rng.random() < 0.6:      # the receiver's own transmit settings, independent of the senders'
+            c["rx"] = {"size": rng.choice([1, 33, 38, 40, 64, 125, 170, 200]), "curt": rng.random() < 0.5,
+                       "code": rng.choice(mc.ZERO_CODES)}
+            c["rxsets"] = [[rng.random(), rng.choice([["size", rng.choice([1, 25, 33, 60, 124, 165])], ["curt", rng.random() < 0.5],
+                                                     ["code", rng.choice(mc.ZERO_CODES)]])] for _ in range(rng.randint(0, 3))]
+        out.append(c)
     return out
 
 
@@ -219,6 +237,8 @@ def _ops(case, sent):
             ops += [["recv"], ["grams"], ["memos"]]
     if case["svc"] == "once":
         ops += [["once"]] * (len(case["memos"]) + 1)
+    for frac, (attr, val) in sorted(case.get("rxsets", []), reverse=True):
+        ops.insert(int(frac * len(ops)), ["rxset", attr, val])
     ops.append(["all"])
     return sched, ops
 
@@ -235,7 +255,7 @@ def run_impl(case):
         slog += tx.slog
         sent.append({"grams": grams, "exc": exc, "size": tx.size, "vid": vid, "code": tx.code, "curt": bool(tx.curt)})
     sched, ops = _ops(case, sent)
-    rx = mc.new_receiver(case["authic"])
+    rx = mc.new_receiver(case["authic"], **case.get("rx", {}))
     excs = mc.run_rx_ops(rx, ops)
     obs = mc.observe_rx(rx)
     obs.update({"excs": excs, "sent": sent, "sign": slog, "sched": sched, "ops": ops})
